@@ -127,12 +127,12 @@ shim_all(DS, M)
 @kernel('C19', funcs=['designspaceLib/__init__.py:AxisDescriptor.map_forward', 'designspaceLib/__init__.py:AxisDescriptor.map_backward',
                       'designspaceLib/__init__.py:AxisDescriptor.get_validated_map', 'varLib/models.py:piecewiseLinearMap',
                       'designspaceLib/__init__.py:DesignSpaceDocument.map_forward', 'designspaceLib/__init__.py:DesignSpaceDocument.map_backward'],
-        bounds='continuous axis with a STRICTLY monotone user->design map of n in 2..4 symbolic knots (reals) and a symbolic value v anywhere (inside, '
+        bounds='continuous axis with a STRICTLY monotone (increasing, or decreasing) user->design map of n in 2..4 symbolic knots (reals) and a symbolic value v anywhere (inside, '
                'at, and outside the knots): map_backward(map_forward(v)) == v and map_forward(map_backward(w)) == w; the document-level maps agree '
                'with the axis-level ones',
         shims=['dict keyed by symbolic reals: collide mode', 'sorted() forks on comparisons'],
-        quick=[dict(n=2), dict(n=3)], thorough=[dict(n=2), dict(n=3), dict(n=4)], collide=True)
-def axis_map_inverse(n):
+        quick=[dict(n=2), dict(n=3), dict(n=3, decreasing=True)], thorough=[dict(n=2), dict(n=3), dict(n=4), dict(n=2, decreasing=True), dict(n=3, decreasing=True), dict(n=4, decreasing=True)], collide=True)
+def axis_map_inverse(n, decreasing=False):
     a = DS.AxisDescriptor()
     a.name = 'Weight'
     a.tag = 'wght'
@@ -141,15 +141,21 @@ def axis_map_inverse(n):
     for x, y in zip(us, us[1:]):
         assume(lt(x, y))
     for x, y in zip(ds, ds[1:]):
-        assume(lt(x, y))
+        assume(lt(y, x) if decreasing else lt(x, y))          # a decreasing map is monotone too
     a.minimum, a.default, a.maximum = us[0], us[0], us[-1]
     a.map = list(zip(us, ds))
     v = V.real('v', -200, 1200)
+    if decreasing:
+        # outside the knots both directions continue with slope +1 (library convention), which cannot invert a decreasing map: the
+        # decreasing variant is claimed between the knots only (designspace outputs must ascend for building anyway)
+        assume(conj([le(us[0], v), le(v, us[-1])]))
     w = a.map_forward(v)
     back = a.map_backward(w)
     observe('forward', w)
     ob('backward-after-forward', eq(back, v))
     w2 = V.real('w', -200, 1200)
+    if decreasing:
+        assume(conj([le(ds[-1], w2), le(w2, ds[0])]))
     ob('forward-after-backward', eq(a.map_forward(a.map_backward(w2)), w2))
     ob('knots-map-to-knots', conj([eq(a.map_forward(u), d) for u, d in zip(us, ds)] + [eq(a.map_backward(d), u) for u, d in zip(us, ds)]))
     doc = DS.DesignSpaceDocument()
